@@ -223,3 +223,15 @@ for Crossbeam<'static, ItemType, BUFFER_SIZE, MAX_STREAMS> {
         self.streams_manager.name()
     }
 }
+
+
+/// verification only: access to the streams bookkeeping of this channel
+#[cfg(feature = "verif")]
+impl<'a, ItemType: 'a + Send + Sync + Debug,
+         const BUFFER_SIZE: usize,
+         const MAX_STREAMS: usize>
+Crossbeam<'a, ItemType, BUFFER_SIZE, MAX_STREAMS> {
+    pub fn verif_streams_manager(&self) -> &StreamsManagerBase<MAX_STREAMS> {
+        &self.streams_manager
+    }
+}
